@@ -119,6 +119,11 @@ impl Ctx {
     pub fn with_threads<T: Send>(&mut self, n: usize, f: impl FnOnce() -> T + Send) -> T {
         rayon::ThreadPoolBuilder::new().num_threads(n).build().unwrap().install(f)
     }
+    pub fn require(&mut self, ok: bool, what: &str) {
+        if !ok {
+            panic!("harness precondition failed: {}", what);
+        }
+    }
     pub fn symbolic(&self) -> bool {
         false
     }
@@ -154,7 +159,7 @@ impl Ctx {
             return;
         }
         let scale = 1.0f32.max(lhs.abs()).max(rhs.abs());
-        let ok = (lhs - rhs).abs() <= self.tol * scale || (lhs.is_nan() && rhs.is_nan()) || lhs == rhs;
+        let ok = if lhs.is_finite() && rhs.is_finite() { (lhs - rhs).abs() <= self.tol * scale } else { (lhs.is_nan() && rhs.is_nan()) || lhs == rhs };
         let ok = ok || !self.assumes_ok;
         self.rec(role, "eq", ok, format!("lhs={:e} rhs={:e}", lhs, rhs), lhs, None);
     }
